@@ -223,6 +223,19 @@ CHECKS = {
         "The observer looks between calls only; atomicity inside one call rests on SQLite's transactions.",
         "DESIGN.md 4/C18",
     ),
+    "C19": (
+        "exploration",
+        "property-based round-trip with refusal sequences (good.., refused, good..) against fastavro.reader and "
+        "AvroReader; classification of every generated value as representable / must-refuse",
+        "Generated descriptors over the Avro-mapped types with boundary values (int32/int64 edges, uint32 >= 2^31, "
+        "NaN/inf, float32 overflow, pre-1970 timestamps, lone surrogates, None) are written in sequences that mix "
+        "representable and unrepresentable records, a second descriptor and flushes. Representable records must be "
+        "accepted and read back (type name, field list, float32-rounded floats, UTC instants) by both the standard "
+        "reader and AvroReader; unrepresentable ones and unmapped field types must raise at write(); after a refusal "
+        "the file must hold exactly the accepted records.",
+        "Standard Avro reader = fastavro; one listed known finding (a refused record corrupts the block buffer).",
+        "DESIGN.md 4/C19",
+    ),
 }
 
 NOT_APPLICABLE = {}
